@@ -19,13 +19,13 @@
 (* the quit channel (quitc), where the goroutine is (gor).                 *)
 (*                                                                         *)
 (* ONE ACTION PER ARM of the two selects of the loop (queue.go lines):     *)
-(*   ArmInDirect    :75 `item := <-chanIn` with an empty overflow list,    *)
-(*                  then :85 `chanOut <- item` or :88 default -> overflow  *)
-(*   ArmInOverflow  :98 `item := <-chanIn` with a non-empty overflow list  *)
+(*   ArmInDirect    :76 `item := <-chanIn` with an empty overflow list,    *)
+(*                  then :86 `chanOut <- item` or :89 default -> overflow  *)
+(*   ArmInOverflow  :99 `item := <-chanIn` with a non-empty overflow list  *)
 (*   ArmPop         :109 `chanOut <- nextElement.Value`                    *)
-(*   ArmQuit        :91 / :111 `<-quit`                                    *)
-(*   ArmInClosed    :76 / :99 `!ok`: leave the loop                        *)
-(*   ArmDrainPop    :124 / ArmDrainQuit :126 / ArmCloseOut :133            *)
+(*   ArmQuit        :92 / :111 `<-quit`                                    *)
+(*   ArmInClosed    :77 / :100 `!ok`: leave the loop                       *)
+(*   ArmDrainPop    :122 / ArmDrainQuit :124 / ArmCloseOut :131            *)
 (* plus what the runtime does for parked parties (StopReturn: wg.Wait      *)
 (* returns; ConsumerEOF: a parked receiver sees the close).                *)
 (* The environment (producer, consumer, owner) acts at any moment: TLC     *)
